@@ -96,3 +96,31 @@ func VH_C14_OneWriteAtBoundarySizes() {
 		vAssertEqBytes("frame_bytes_at_boundary", conn.writes[0], ref)
 	}
 }
+
+type vFailConn struct{ vRecConn }
+
+func (c *vFailConn) Write(p []byte) (int, error) { return 0, vErr{} }
+
+// A failed write to one client leaves nothing behind for the next transaction: what another client then receives
+// is exactly its own frame.
+func VH_C14_FailedWriteDoesNotLeakIntoNextFrame() {
+	srv, _ := NewServer()
+	bad := &ClientConn{Connection: &vFailConn{}, Server: srv}
+	good := &vRecConn{}
+	cc := &ClientConn{Connection: good, Server: srv}
+	srv.ClientMgr.Add(bad)
+	srv.ClientMgr.Add(cc)
+	d1 := vBytesEach("data_for_failing_client", 3)
+	d2 := vBytesEach("data_for_other_client", 3)
+	t1 := NewTransaction(TranChatMsg, bad.ID, NewField(FieldData, d1))
+	err := srv.sendTransaction(t1)
+	vAssert("failed_write_reported", err != nil)
+	t2 := NewTransaction(TranServerMsg, cc.ID, NewField(FieldData, d2))
+	ref := refTransaction(&t2, [][]byte{refField(FieldData[0], FieldData[1], d2)})
+	err = srv.sendTransaction(t2)
+	vAssert("second_send_ok", err == nil)
+	vAssert("one_write", len(good.writes) == 1)
+	if len(good.writes) == 1 {
+		vAssertEqBytes("next_frame_is_exactly_its_own_bytes", good.writes[0], ref)
+	}
+}
